@@ -1,0 +1,78 @@
+//go:build verif
+
+package goja
+
+import "math"
+
+// Spec functions for the Number representation (property C05). Pure Go, compiled only with
+// -tags verif; used by the contracts in zz_verif_contracts_num.go and by replay tests.
+
+// specCanon is the representation invariant of Number values: an integral double in
+// [-2^53, 2^53] other than -0 is always a valueInt, and a valueInt is always in that range.
+func specCanon(v Value) bool {
+	switch n := v.(type) {
+	case valueInt:
+		return int64(n) >= -maxInt && int64(n) <= maxInt
+	case valueFloat:
+		f := float64(n)
+		if f == 0 {
+			return math.Signbit(f)
+		}
+		return !(f == math.Trunc(f) && f >= -maxInt && f <= maxInt)
+	}
+	return true
+}
+
+// specSameFloat: identical doubles (NaN equals NaN, +0 differs from -0).
+func specSameFloat(a, b float64) bool {
+	if math.IsNaN(a) || math.IsNaN(b) {
+		return math.IsNaN(a) && math.IsNaN(b)
+	}
+	return a == b && math.Signbit(a) == math.Signbit(b)
+}
+
+// specNumIs: v is a Number value denoting exactly the double f.
+func specNumIs(v Value, f float64) bool {
+	switch n := v.(type) {
+	case valueInt:
+		return specSameFloat(float64(n), f)
+	case valueFloat:
+		return specSameFloat(float64(n), f)
+	}
+	return false
+}
+
+func specIsNumber(v Value) bool {
+	switch v.(type) {
+	case valueInt, valueFloat:
+		return true
+	}
+	return false
+}
+
+// specNumVal: the double a Number value denotes (0 for non-numbers).
+func specNumVal(v Value) float64 {
+	switch n := v.(type) {
+	case valueInt:
+		return float64(n)
+	case valueFloat:
+		return float64(n)
+	}
+	return 0
+}
+
+func specIsNaNValue(v Value) bool {
+	f, ok := v.(valueFloat)
+	return ok && math.IsNaN(float64(f))
+}
+
+func specIsFloatValue(v Value) bool {
+	_, ok := v.(valueFloat)
+	return ok
+}
+
+// specFloatValueIs: v is the valueFloat holding exactly the double f.
+func specFloatValueIs(v Value, f float64) bool {
+	x, ok := v.(valueFloat)
+	return ok && specSameFloat(float64(x), f)
+}
